@@ -524,7 +524,7 @@ impl Harness for C18 {
         }
     }
 
-    fn generate(&self, rng: &mut Rng, tier: Tier, index: u64) -> Scenario {
+    fn generate(&self, rng: &mut Rng, tier: Tier, _index: u64) -> Scenario {
         // Swarm: each run draws its own knobs and its own op-kind weights.
         let timeout_ns = *rng.pick(&TIMEOUTS_NS);
         let mut knobs = Knobs::default_for(timeout_ns);
@@ -553,7 +553,7 @@ impl Harness for C18 {
         let max_len = match tier {
             Tier::Quick => 5,
             Tier::Thorough => {
-                if index % 4 == 0 {
+                if rng.chance(1, 4) {
                     10
                 } else {
                     5
@@ -576,7 +576,7 @@ impl Harness for C18 {
         });
         // The fault-injecting sub-batch (every fourth run) adds kinds outside
         // the property's request alphabet, each with its own narrow relaxation.
-        if index % 4 == 3 {
+        if rng.chance(1, 4) {
             let at = rng.below(requests.len() as u64) as usize;
             knobs.extra.push(Extra::CtrlC {
                 at,
